@@ -216,3 +216,38 @@ for _name, _props in (('uint', {'C02'}), ('int', {'C02'}), ('uintbe', {'C02', 'C
     contract(f'bits.Bits.{_fn}', shapes=_self_shapes(states=_states), props=_props, kind='public',
              note=f"the {_name} interpretation of the whole bitstring (little-endian = big-endian of the byte-reversed bits); "
                   "InterpretError for a length the type does not admit")(_getter_spec(_name))
+
+
+# ---- Dtype(existing_dtype, ...): the instance comes back as it is (Dtype objects are shared through caches: no call may change one)
+def _dtype_passthrough_shapes():
+    out = []
+    for nm, n in (('uint', 8), ('float', 32), ('hex', 4), ('ue', None)):
+        for extra in ('none', 'length', 'scale', 'both'):
+            def build(S, interp, nm=nm, n=n, extra=extra):
+                D = interp.get_module('bitstring').ns['Dtype']
+                d = interp.call(D, [nm] + ([n] if n is not None else []), {})
+                kw = {}
+                if extra in ('length', 'both'):
+                    kw['length'] = S.int('len2')
+                if extra in ('scale', 'both'):
+                    kw['scale'] = S.int('sc')
+                return [D, d], kw
+
+            def real(vals, nm=nm, n=n, extra=extra):
+                import bitstring
+                d = bitstring.Dtype(nm, n) if n is not None else bitstring.Dtype(nm)
+                kw = {}
+                if extra in ('length', 'both'):
+                    kw['length'] = vals['len2']
+                if extra in ('scale', 'both'):
+                    kw['scale'] = vals['sc']
+                return [bitstring.Dtype, d], kw
+            out.append(Shape(f'{nm}{n or ""}/{extra}', build, real))
+    return out
+
+
+@contract('dtypes.Dtype.__new__@instance', target='dtypes.Dtype.__new__', shapes=_dtype_passthrough_shapes(), props={'C09', 'C15', 'C11'}, kind='public',
+          observe_args=True, note="Dtype(d, ...) for an existing Dtype d returns d itself, unchanged (name, length, scale): a Dtype is a shared, "
+                                  "memoised value and no call may rescale or resize it")
+def dtype_passthrough_spec(C, cls, token, length=None, scale=None):
+    return token
